@@ -319,9 +319,7 @@ theorem AA.run_norm (a : AA) (ds : List Nat) :
 
 theorem WObj.solve_norm (b : Bool) (w : WObj) (data n : Nat) :
     (w.norm.solve b data 0 n).2 = (w.solve b data 0 n).2 := by
-  cases n with
-  | zero => rfl
-  | succ n => simp [WObj.solve, WObj.linearSolve, WObj.norm]
+  simp [WObj.solve, WObj.linearSolve, WObj.norm]
 
 /-! ### the process -/
 
